@@ -54,12 +54,12 @@ def _drive(args):
     alpha = isoc.alphabet(codec)
     cap = 99 if bc[bit]['field_type'] == 'LLVAR' else 999
     out = []
-    for tid in range(14):
+    for tid in range(14 if not drv.THREADED else 60):
         r = drv.rng(seed, 'c16', bit, proc, tid)
-        n = (10, 11, 12, 13, 16, 19, 19, 24, 40, min(cap, 99), 16, 17, 18, 15)[tid]
+        n = (10, 11, 12, 13, 16, 19, 19, 24, 40, min(cap, 99), 16, 17, 18, 15)[tid % 14]
         pan = ''.join('1234567890'[(i * 3 + tid) % 10] if i % 5 else '9876543210'[(i + tid) % 10] for i in range(n))
         if tid % 4 == 3:
-            pan = isoc.rtext(r, n, alpha, 'safe')
+            pan = isoc.rtext(r, n, alpha, 'safe').replace('*', '#')      # (a number whose hidden part already is the mask character "leaks" nothing)
         if tid in (4, 10, 13):      # repeated digits: the hidden middle also occurs elsewhere in the number
             pan = (('5' * 12 + '4444', '4' + '1' * 15, '12345637890' + '0' * 8)[tid % 3] * 3)[:n]
         if numeric:
@@ -73,7 +73,7 @@ def _drive(args):
         for b in r.sample(others, 3):
             m['DE' + b] = isoc.value_for(r, bc[b], alpha)
         t = isocheck.roundtrip_trace(tid, m, bc, codec, bool(tid & 1), '%s on DE%s, card number of %d characters' % (proc, bit, n),
-                                     secret=pan)
+                                     secret=pan if proc else '')
         out.append(t)
     return out
 
@@ -156,6 +156,12 @@ def run(rep, wd, tier, seed):
         if int(b) > 4 and (int(b) % 2 == 0 or tier == 'thorough'):
             jobs.append((seed, b, ('PAN', 'PAN-PREFIX')[(int(b) // 2) % 2], 'cp500' if int(b) % 4 == 0 else 'latin_1', False, True))
     outs = isocheck._pool(_drive, jobs)
+    # four threads at once: masking configurations next to the SAME layout without any processor
+    tjobs = []
+    for i, b in enumerate(var[:4]):
+        tjobs += [(seed + 500, b, ('PAN', 'PAN-PREFIX')[i % 2], 'latin_1', False, False), (seed + 500, b, None, 'latin_1', False, False)]
+    jobs = jobs + tjobs
+    outs = outs + isocheck.mark_threaded(isocheck.threaded('harness.c16', '_drive', tjobs, procs=2))
     rep.extra['masking_configurations'] = len(jobs)
     rep.extra['elements_given_the_processor'] = sorted(var, key=int)
     # one TLC batch per configuration: consts differ per job
